@@ -121,7 +121,38 @@ pub fn quals_extras(q: &Qualifiers) -> Value {
     let get_up: Vec<Option<String>> =
         fwd.iter().map(|(k, _)| q.get(k.to_ascii_uppercase()).map(|v| v.to_owned())).collect();
     let want: Vec<Option<String>> = fwd.iter().map(|(_, v)| Some(v.clone())).collect();
+    // iterator protocol: alternate next / next_back, exact size hints, each entry exactly once
+    let mut it = q.iter();
+    let (mut front, mut back): (Vec<(String, String)>, Vec<(String, String)>) = (Vec::new(), Vec::new());
+    let mut hints_ok = it.len() == fwd.len() && it.size_hint() == (fwd.len(), Some(fwd.len()));
+    let mut turn = true;
+    loop {
+        let item = if turn { it.next() } else { it.next_back() };
+        let Some((k, v)) = item else { break };
+        if turn {
+            front.push((k.as_str().to_owned(), v.to_owned()));
+        } else {
+            back.push((k.as_str().to_owned(), v.to_owned()));
+        }
+        turn = !turn;
+        let left = fwd.len() - front.len() - back.len();
+        hints_ok &= it.size_hint() == (left, Some(left));
+    }
+    back.reverse();
+    front.extend(back);
+    // key views agree: as_str, Deref, AsRef, Display-free conversions
+    let keys_ok = q.iter().all(|(k, _)| {
+        let a: &str = k.as_str();
+        let b: &str = k;
+        let c: &str = k.as_ref();
+        a == b && b == c && *k == *a && String::from(a) == k.to_string()
+    });
+    let into_ref: Vec<(String, String)> = (&*q).into_iter().map(|(k, v)| (k.as_str().to_owned(), v.to_owned())).collect();
     json!({
+        "alternating_same": front == fwd,
+        "size_hints_exact": hints_ok,
+        "key_views_same": keys_ok,
+        "into_iter_same": into_ref == fwd,
         "rev_same": fwd == rev,
         "len_same": q.len() == fwd.len() && q.is_empty() == fwd.is_empty(),
         "get_lower_same": get_lo == want,
